@@ -34,6 +34,9 @@ def main():
             items.append(('seeded', d, meta.get('checks') or [meta['property']], meta))
     for kind, mid, props, m in items:
         if a.only and a.only not in mid: continue
+        if kind == 'seeded' and m.get('superseded'):
+            results.append({'id': mid, 'kind': kind, 'property': m.get('property'), 'superseded': m['superseded'], 'detected': None})
+            print('%-28s superseded by a /repo repair' % mid); continue
         if a.props: props = a.props.split(',')
         scratch = tempfile.mkdtemp(prefix='mut-')
         try:
